@@ -847,5 +847,9 @@ m("c09-validate-rejects-equal-times", "C09", "x/vesting/types/clawback_vesting_a
   "\tif va.GetStartTime() > va.GetEndTime() {", "\tif va.GetStartTime() >= va.GetEndTime() {",
   "accepts-start-equal-end", "a fully clawed-back account is invalid")
 
+m("c13-negative-branch-keeps-clock", "C13", "x/coinomics/keeper/inflation.go",
+  "\t\tk.SetPrevBlockTS(ctx, currentBlockTS.RoundInt())\n\n\t\treturn nil\n\t}\n", "\t\treturn nil\n\t}\n",
+  "clock-advances-on-every-success", "a negative computed mint leaves the mint clock where it was")
+
 json.dump(M, open('/verif/mutants.json', 'w'), indent=1)
 print(len(M), "mutants written")
